@@ -340,7 +340,74 @@ def rule_r6(ctx: Ctx) -> None:
     ctx.analysed["C03.R6.runs"] = n_runs
 
 
+def rule_r8_text(ctx: Ctx) -> None:
+    """how the text of a definition gets from the file to the parser: the accessor is evaluated over an abstract file whose
+    content has CRLF, CR and LF line ends; what comes out must be the same text with every line end a single LF (Python's
+    universal newlines: `open(path)` in text mode, `Path.read_text()`) - otherwise a raw line break inside a string literal,
+    and every line count, differs between a CRLF and an LF copy of the same definition"""
+    from ..absint import Raised
+    from ..core import dotted
+    from ..fold import Abstract, Folder, Unfoldable
+    from . import reader_common as R
+
+    ctx.rule("C03.R8", "the text handed to the parser is the file's content with line ends translated to LF (text mode / universal newlines): LF and CRLF copies of a definition are the same text", min_instances=1)
+    dd = ctx.cls("_dsdl_definition.DSDLDefinition")
+    own = R.own_definition(ctx, "ns.sub.T", 1, 2)
+    raw = "uint8 a\r\n# c\r@assert 'x\r\ny' == 'x\ny'\n@sealed\r\n"
+    opened: List[str] = []
+
+    def translate(text: str) -> str:
+        return text.replace("\r\n", "\n").replace("\r", "\n")
+
+    class TextFile(Abstract):
+        def __init__(self, translated: bool, binary: bool):
+            self.translated, self.binary = translated, binary
+
+        def read(self, *a: Any) -> Any:
+            if self.binary:
+                return raw.encode("utf8")
+            return translate(raw) if self.translated else raw
+
+        def __enter__(self) -> "TextFile":
+            return self
+
+        def __exit__(self, *a: Any) -> None:
+            return None
+
+    base = R._hook(ctx, dd.module, [])
+
+    def hook(e: ast.expr, f: Any) -> Any:
+        if isinstance(e, ast.Call):
+            name = dotted(e.func) or ""
+            last = name.split(".")[-1]
+            kw = {k.arg: f.fold(k.value) for k in e.keywords if k.arg}
+            if name in ("open", "io.open") or (isinstance(e.func, ast.Attribute) and last == "open" and name.split(".")[0] in f.env):
+                pos = [f.fold(a) for a in e.args]
+                mode = kw.get("mode", pos[1] if name in ("open", "io.open") and len(pos) > 1 else (pos[0] if name not in ("open", "io.open") and pos else "r"))
+                newline = kw.get("newline", None)
+                opened.append("%s(mode=%r, newline=%r)" % (last, mode, newline))
+                return TextFile(translated=("b" not in str(mode)) and newline is None, binary="b" in str(mode))
+            if isinstance(e.func, ast.Attribute) and last == "read_text":
+                opened.append("read_text()")
+                return translate(raw) if kw.get("newline", None) is None else raw
+            if isinstance(e.func, ast.Attribute) and last == "read_bytes":
+                opened.append("read_bytes()")
+                return raw.encode("utf8")
+        return base(e, f)
+
+    try:
+        got = Folder({"d": own}, ctx.repo, dd.module, None, hook).fold(ast.parse("d.text", mode="eval").body)
+    except Raised as r:
+        raise AnalysisError("DSDLDefinition.text raised %s over an abstract file" % r.cls_name)
+    except Unfoldable as ex:
+        raise AnalysisError("DSDLDefinition.text: cannot evaluate over an abstract file: %s" % ex)
+    ctx.count()
+    fn = ctx.repo.lookup_method(dd, "text")
+    ctx.check(isinstance(got, str) and got == translate(raw) and bool(opened), (fn.short if fn else dd.short + ".text"), "file read by %s; text handed on: %r" % (", ".join(opened) or "?", got if isinstance(got, str) else repr(got)[:60]), "LF vs CRLF is formatting: the model must not change (line ends inside string literals included)", fn.where() if fn else dd.module.relpath)
+
+
 def run(ctx: Ctx) -> None:
+    ctx.attempt(rule_r8_text, ctx)
     # (the typestate machine that first decided R1 read the roles of private fields off the code and was not robust against
     # a different private representation; R6 decides the same clauses extensionally and R1 is now the part of it that concerns
     # loss / duplication / misplacement)
